@@ -394,10 +394,16 @@ func genTree(r *common.Rng, depth int, parens int) *tree {
 			op := common.Pick(r, binops)
 			if r.Chance(1, 3) { // favour chains of the same operator and the additive / multiplicative levels
 				op = common.Pick(r, []string{"OR", "AND", "ADD", "SUB", "MUL", "QUO"})
+			} else if r.Chance(1, 4) { // and neighbouring precedence levels
+				op = common.Pick(r, []string{"LOR", "LAND", "OR", "AND", "EQL", "LSS"})
 			}
 			t = &tree{k: 'B', tok: op, kids: []*tree{genTree(r, depth-1, parens), genTree(r, depth-1, parens)}}
 		case 5, 6, 7:
 			t = &tree{k: 'U', tok: common.Pick(r, unops), kids: []*tree{genTree(r, depth-1, parens)}}
+			if r.Chance(1, 8) { // unary operator applied to a unary operand: pairs that may lex as one token
+				in := &tree{k: 'U', tok: common.Pick(r, []string{"SUB", "MAT", "EQL", "ADD", "NEQ", "LEQ"}), kids: t.kids}
+				t = &tree{k: 'U', tok: common.Pick(r, []string{"LSS", "GTR", "NOT", "SUB", "ADD", "LEQ"}), kids: []*tree{in}}
+			}
 		case 8:
 			t = &tree{k: 'S', tok: genSel(r), kids: []*tree{genTree(r, depth-1, parens)}}
 		case 9:
